@@ -80,7 +80,7 @@ def run(ctx):
     ctx.log('driver built')
     mc = vlib.tlc_must_pass(ctx, os.path.join(H.SPEC, 'MC_RequestHead.tla'),
                             os.path.join(H.SPEC, 'MC_RequestHead_thorough.cfg' if ctx.thorough else 'MC_RequestHead.cfg'),
-                            workers=8, timeout=1500, label='mc-requesthead')
+                            workers=vlib.NCPU, timeout=1500, label='mc-requesthead')
     ctx.log('MC_RequestHead: %d states (grammar laws and prefix law of the specification)' % mc.distinct)
     cs, parts = gen(ctx)
     ctx.log('%d cases' % len(cs))
